@@ -526,12 +526,21 @@ pub fn arb_multidrop_case() -> BoxedStrategy<SrvCase> {
         .boxed()
 }
 
-/// C08 cases: MBAP with a generated policy and role; repeats of the same request
+/// C08 cases: a generated policy and role; repeats of the same request. Mostly MBAP (the only
+/// framing production pairs with authorization); a quarter of the cases use RTU framing through
+/// the hook so that broadcast writes meet the authorization handler as well.
 pub fn arb_auth_case() -> BoxedStrategy<SrvCase> {
-    (arb_units(3), arb_decode(), any::<u64>(), arb_policy(), arb_role())
-        .prop_flat_map(|(units, decode, select_seed, policy, role)| {
+    (
+        arb_units(3),
+        arb_decode(),
+        any::<u64>(),
+        arb_policy(),
+        arb_role(),
+        prop_oneof![3 => Just(Fr::Mbap), 1 => Just(Fr::Rtu)],
+    )
+        .prop_flat_map(|(units, decode, select_seed, policy, role, framing)| {
             let ids: Vec<u8> = units.iter().map(|u| u.0).collect();
-            (arb_frames(Fr::Mbap, ids, WinHint::of(units.first().map(|u| &u.1)), 8, 10), vec((any::<prop::sample::Index>(), 1usize..4), 0..3)).prop_map(
+            (arb_frames(framing, ids, WinHint::of(units.first().map(|u| &u.1)), 8, 10), vec((any::<prop::sample::Index>(), 1usize..4), 0..3)).prop_map(
                 move |(mut frames, repeats)| {
                     // repeat some requests so that a per-call policy sees the same request again
                     for (idx, times) in &repeats {
@@ -542,7 +551,7 @@ pub fn arb_auth_case() -> BoxedStrategy<SrvCase> {
                     }
                     SrvCase {
                         cfg: SrvConfig {
-                            framing: Fr::Mbap,
+                            framing,
                             units: units.clone(),
                             auth: Some((policy.clone(), role.clone())),
                             decode,
